@@ -33,12 +33,26 @@ META = dict(
                'cores back like active ones). Environment assumptions: Legal.v (messages about an existing attempt name its instance, an unschedule '
                'names an existing attempt, completions that name an instance carry an end time) plus one stated in the theorem: a completion without '
                'attempt id names no instance. Both are shown NECESSARY by vm_compute witnesses (C10_needs_*), which behave identically on the real '
-               'SQL (corpus/C10/forged-messages.json, re-run by the oracle for the record); the real driver never sends such messages.',
+               'SQL (corpus/C10/forged-messages.json, re-run by the oracle for the record); the real driver never sends such messages. '
+               'The driver\'s in-memory copy of the free cores: one theorem about the answers of schedule_job (C10_pool_schedule_delta_exact: '
+               'old free - cores + delta = new free for every answer) + a run-time clause on the real driver bookkeeping (in-memory == database '
+               'after every op; see level_note).',
     level_note='Trusted: Coq kernel; the model-vs-implementation correspondence (sampled, not proved) and the minisql engine; that the driver only '
                'unschedules attempts it read from the attempts table and passes instance NULL whenever it passes attempt NULL to mark_job_complete '
-               '(canceller.cancel_cancelled_ready_jobs, job.mark_job_errored - read, not verified mechanically). The in-memory copy '
-               '(Instance.adjust_free_cores_in_memory) is not modelled: the theorems are about instances_free_cores_mcpu. -1 stands for SQL NULL and is '
-               'excluded as an instance name.',
+               '(canceller.cancel_cancelled_ready_jobs, job.mark_job_errored - read, not verified mechanically). -1 stands for SQL NULL and is '
+               'excluded as an instance name. IN-MEMORY COPY (Instance.free_cores_mcpu, what the scheduler places jobs by): the object is NOT '
+               'modelled. PROVED (MemCores.v, C10_pool_schedule_delta_exact): from any state, for every answer [rc; delta] of CALL schedule_job on a '
+               'live pool instance - rc 0 and rc 1 alike - database free\' = database free - cores + delta, i.e. reservation + answered delta '
+               'reproduces the database change exactly. RUN-CHECKED only (oracle clause C10:in-memory-free-cores, harness/batchdb/oracles.py '
+               'c10_memory): the runner executes the REAL bookkeeping of batch/driver/job.py on the real Instance object - schedule_job '
+               '(recompiled from source without its state assert / job config / worker POST, called for pool instances through the pool '
+               'scheduler\'s real reservation statement and its real schedule_with_error_handling, both cut out by AST), mark_job_started, '
+               'mark_job_creating, mark_job_complete, unschedule_job (for other end reasons recompiled with the constant replaced) - and after every '
+               'op of every corpus and driven history the in-memory free cores of every instance that is live in the database, known to the driver '
+               'under the same state and not the target of a message the service cannot deliver (worker report past active_instances_only, '
+               'mark_creating to a non-pending instance) must equal instances_free_cores_mcpu; corpus/C10/in-memory-free-cores.json holds the '
+               'orderings in which the CALL answers rc=1 with a positive delta (retried call, started/complete report processed first). Open finding '
+               '(findings/C10.json): the in-memory copy of a PENDING instance is not given the cores back when its attempt ends.',
     partial=False,
 )
 TRUSTED = family.COMMON_TRUSTED + [
